@@ -70,6 +70,13 @@ type fieldPlan struct {
 	args        argPlan
 	returnType  Output
 
+	// astChains[i] lists the named fragments whose bodies enclose fieldASTs[i]
+	// on the way down from the operation. A fragment on that chain is not
+	// expanded again below the field: in a valid document it cannot occur
+	// there, and in an unvalidated one (fragment cycle through a field) it
+	// would make the depth of execution depend on the data alone.
+	astChains []*fragmentChain
+
 	// skipPredicate evaluates the field's combined @skip / @include
 	// directives against request variables. nil ⇒ always include
 	// (constant-true at plan time, the common case).
@@ -105,6 +112,21 @@ type argPlan struct {
 	// nil when hasVariables is false.
 	fieldDefArgs []*Argument
 	argASTs      []*ast.Argument
+}
+
+// fragmentChain is an immutable list of fragment names, innermost first.
+type fragmentChain struct {
+	name string
+	up   *fragmentChain
+}
+
+func (c *fragmentChain) has(name string) bool {
+	for ; c != nil; c = c.up {
+		if c.name == name {
+			return true
+		}
+	}
+	return false
 }
 
 // PlanQuery walks the document, picks the named operation (or the
@@ -262,7 +284,7 @@ func (p *Plan) planSelectionSet(parentType *Object, selectionSet *ast.SelectionS
 	}
 	sp := &selectionPlan{parentType: parentType}
 	keyed := map[string]int{}
-	p.collectInto(parentType, selectionSet, visitedFragmentNames, sp, keyed, nil)
+	p.collectInto(parentType, selectionSet, visitedFragmentNames, sp, keyed, nil, nil)
 	if len(sp.fields) == 0 {
 		return nil
 	}
@@ -311,7 +333,7 @@ func (p *Plan) abstractAlternative(fp *fieldPlan, runtimeType *Object) *selectio
 	if sub, ok := fp.abstractAlternatives[runtimeType]; ok {
 		return sub
 	}
-	sub := p.planMergedSelectionsForType(runtimeType, fp.fieldASTs)
+	sub := p.planMergedSelectionsForType(runtimeType, fp.fieldASTs, fp.astChains)
 	fp.abstractAlternatives[runtimeType] = sub
 	return sub
 }
@@ -320,16 +342,20 @@ func (p *Plan) abstractAlternative(fp *fieldPlan, runtimeType *Object) *selectio
 // SelectionSet under one concrete parent type, returning a
 // selectionPlan that mirrors what completeObjectValue's runtime
 // collectFields loop would produce.
-func (p *Plan) planMergedSelectionsForType(parentType *Object, fieldASTs []*ast.Field) *selectionPlan {
+func (p *Plan) planMergedSelectionsForType(parentType *Object, fieldASTs []*ast.Field, chains []*fragmentChain) *selectionPlan {
 	verifCount(VerifSitePlanMergedSelectionsForType)
 	sp := &selectionPlan{parentType: parentType}
 	keyed := map[string]int{}
 	visited := map[string]bool{}
-	for _, f := range fieldASTs {
+	for i, f := range fieldASTs {
 		if f == nil || f.SelectionSet == nil {
 			continue
 		}
-		p.collectInto(parentType, f.SelectionSet, visited, sp, keyed, nil)
+		var chain *fragmentChain
+		if i < len(chains) {
+			chain = chains[i]
+		}
+		p.collectInto(parentType, f.SelectionSet, visited, sp, keyed, nil, chain)
 	}
 	if len(sp.fields) == 0 {
 		return nil
@@ -356,7 +382,7 @@ func (p *Plan) planMergedSelectionsForType(parentType *Object, fieldASTs []*ast.
 // keyed maps responseKey → index in sp.fields so repeat selections
 // of the same response key merge their fieldASTs (matches
 // collectFields's `fields[name] = append(fields[name], selection)`).
-func (p *Plan) collectInto(parentType *Object, selectionSet *ast.SelectionSet, visitedFragmentNames map[string]bool, sp *selectionPlan, keyed map[string]int, parentPred func(map[string]interface{}) bool) {
+func (p *Plan) collectInto(parentType *Object, selectionSet *ast.SelectionSet, visitedFragmentNames map[string]bool, sp *selectionPlan, keyed map[string]int, parentPred func(map[string]interface{}) bool, chain *fragmentChain) {
 	verifCount(VerifSiteCollectInto)
 	for _, iSelection := range selectionSet.Selections {
 		switch sel := iSelection.(type) {
@@ -376,6 +402,7 @@ func (p *Plan) collectInto(parentType *Object, selectionSet *ast.SelectionSet, v
 				// validation rules guarantee mergeable selections refer
 				// to the same field).
 				sp.fields[idx].fieldASTs = append(sp.fields[idx].fieldASTs, sel)
+				sp.fields[idx].astChains = append(sp.fields[idx].astChains, chain)
 				continue
 			}
 			fieldName := ""
@@ -393,6 +420,7 @@ func (p *Plan) collectInto(parentType *Object, selectionSet *ast.SelectionSet, v
 				fieldName:     fieldName,
 				fieldDef:      fieldDef,
 				fieldASTs:     []*ast.Field{sel},
+				astChains:     []*fragmentChain{chain},
 				skipPredicate: andPredicates(parentPred, pred),
 			}
 			if fieldDef != nil {
@@ -411,7 +439,7 @@ func (p *Plan) collectInto(parentType *Object, selectionSet *ast.SelectionSet, v
 				continue
 			}
 			if sel.SelectionSet != nil {
-				p.collectInto(parentType, sel.SelectionSet, visitedFragmentNames, sp, keyed, andPredicates(parentPred, pred))
+				p.collectInto(parentType, sel.SelectionSet, visitedFragmentNames, sp, keyed, andPredicates(parentPred, pred), chain)
 			}
 
 		case *ast.FragmentSpread:
@@ -423,7 +451,7 @@ func (p *Plan) collectInto(parentType *Object, selectionSet *ast.SelectionSet, v
 			if sel.Name != nil {
 				fragName = sel.Name.Value
 			}
-			if visitedFragmentNames[fragName] {
+			if visitedFragmentNames[fragName] || chain.has(fragName) {
 				continue
 			}
 			frag, ok := p.fragments[fragName]
@@ -439,7 +467,7 @@ func (p *Plan) collectInto(parentType *Object, selectionSet *ast.SelectionSet, v
 				continue
 			}
 			if fragDef.GetSelectionSet() != nil {
-				p.collectInto(parentType, fragDef.GetSelectionSet(), visitedFragmentNames, sp, keyed, andPredicates(parentPred, pred))
+				p.collectInto(parentType, fragDef.GetSelectionSet(), visitedFragmentNames, sp, keyed, andPredicates(parentPred, pred), &fragmentChain{name: fragName, up: chain})
 			}
 		}
 	}
